@@ -27,17 +27,24 @@ Definition value_eqb (a b : value) : bool :=
   | _, _ => false
   end.
 
-Definition pyval_eqb (a b : pyval) : bool :=
+Fixpoint pyval_eqb (a b : pyval) : bool :=
   match a, b with
   | PV x, PV y => value_eqb x y
   | PBytes x, PBytes y => list_eqb Z.eqb x y
   | POther, POther => true
+  | PList x, PList y =>
+    (fix go (x y : list pyval) : bool :=
+       match x, y with
+       | [], [] => true
+       | a' :: x', b' :: y' => pyval_eqb a' b' && go x' y'
+       | _, _ => false
+       end) x y
   | _, _ => false
   end.
 
 (* observed conversions: (arrow type, input) -> result (None = pyarrow raised); unknown pairs raise *)
-Definition conv_tab (tab : list (atype * pyval * option pyval)) (a : atype) (v : pyval) : option pyval :=
-  match find (fun e => atype_eqb (fst (fst e)) a && pyval_eqb (snd (fst e)) v) tab with
+Definition conv_tab (tab : list (catype * pyval * option pyval)) (a : catype) (v : pyval) : option pyval :=
+  match find (fun e => catype_eqb (fst (fst e)) a && pyval_eqb (snd (fst e)) v) tab with
   | Some e => snd e
   | None => None
   end.
@@ -51,8 +58,13 @@ Definition rnd_tab (tab : list (Q * num)) (q : Q) : num :=
 Definition outcome_tag (o : outcome) : Z :=
   match o with Accepted => 0 | RejNoSchema => 1 | RejSchema => 2 | RejRecords => 3 | RejConvert => 4 | RejCommit => 5 | RejFile => 6 end.
 
+(* a number for an Arrow type: the regenerated tag of a primitive type (< 16); 16 * (1 + tag of the element type)
+   for a list *)
+Fixpoint catype_tag (a : catype) : Z :=
+  match a with APrim p => atype_tag p | AList e => 16 * (1 + catype_tag e) end.
+
 Definition aschema_tags (a : aschema) : list (Z * Z * bool) :=
-  map (fun x => (fst (fst x), atype_tag (snd (fst x)), snd x)) a.
+  map (fun x => (fst (fst x), catype_tag (snd (fst x)), snd x)) a.
 
 Definition srow_eqb (x y : srow) : bool :=
   list_eqb (fun a b => (fst a =? fst b) && pyval_eqb (snd a) (snd b)) x y.
@@ -91,7 +103,7 @@ Fixpoint all2 {A B} (m : A -> B -> bool) (x : list A) (y : list B) : bool :=
               every current file matches the observed one, scan_ok) *)
 Definition step_obs := (Z * Z * Z * Z * bool * bool)%type.
 
-Fixpoint trace (conv : atype -> pyval -> option pyval) (w : world) (es : list (event * list real_file)) : list step_obs :=
+Fixpoint trace (conv : catype -> pyval -> option pyval) (w : world) (es : list (event * list real_file)) : list step_obs :=
   match es with
   | [] => []
   | (e, real) :: es' =>
@@ -107,7 +119,7 @@ Require Import DS.Model.SchemaTx.
                      #files in the current snapshot, every current file matches the observed one, scan_ok) *)
 Definition tx_obs := (list Z * Z * Z * Z * bool * bool)%type.
 
-Fixpoint tx_trace (conv : atype -> pyval -> option pyval) (w : world) (ts : list (txn * list real_file)) : list tx_obs :=
+Fixpoint tx_trace (conv : catype -> pyval -> option pyval) (w : world) (ts : list (txn * list real_file)) : list tx_obs :=
   match ts with
   | [] => []
   | (t, real) :: ts' =>
@@ -143,7 +155,7 @@ Definition caches_match (w : world) (rcs : list (Z * real_cache)) : bool :=
    of the handles involved; step_obs + "every observed cache equals the model's" *)
 Definition hstep_obs := (Z * Z * Z * Z * bool * bool * bool)%type.
 
-Fixpoint htrace (conv : atype -> pyval -> option pyval) (w : world)
+Fixpoint htrace (conv : catype -> pyval -> option pyval) (w : world)
     (es : list (list (Z * opener) * event * list real_file * list (Z * real_cache))) : list hstep_obs :=
   match es with
   | [] => []
@@ -155,7 +167,7 @@ Fixpoint htrace (conv : atype -> pyval -> option pyval) (w : world)
 
 Definition htx_obs := (list Z * Z * Z * Z * bool * bool * bool)%type.
 
-Fixpoint thtrace (conv : atype -> pyval -> option pyval) (w : world)
+Fixpoint thtrace (conv : catype -> pyval -> option pyval) (w : world)
     (ts : list (list (Z * opener) * txn * list real_file * list (Z * real_cache))) : list htx_obs :=
   match ts with
   | [] => []
